@@ -261,6 +261,19 @@ def creation_rules(ctx, ss):
         ctx.count(('erdos-renyi-p', p, seed), nontrivial=True); ctx.dist('creation rule: Erdos-Renyi edge probability')
         if abs(got - want) > 6 * sd + 1:
             ctx.violation(f'ErdosRenyiNet(p={p}) on {n} agents holds {got} of the {int(pairs)} possible pairs ({got / pairs:.4f}); each pair is to be an edge with probability {p} ({want:.0f} +- {sd:.0f})', dict(probe='erdos-renyi-p', p=p, seed=seed, edges=got))
+    for r_ in (0.1, 0.25):      # disk network: exactly the pairs of active agents closer than r
+        n = 120; seed = rng.randrange(1, 10**4)
+        sim = ss.Sim(n_agents=n, networks=ss.DiskNet(r=r_), diseases=ss.SIS(), demographics=[ss.Births(birth_rate=40), ss.Deaths(death_rate=40)], dur=3, rand_seed=seed, verbose=0); sim.init()
+        for stepno in range(3):
+            net = sim.networks[0]; au = np.asarray(sim.people.auids)
+            x = np.asarray(net.x.raw, dtype=float); y = np.asarray(net.y.raw, dtype=float)
+            i1, i2 = np.triu_indices(len(au), k=1); a, b = au[i1], au[i2]
+            close_ = (x[b] - x[a]) ** 2 + (y[b] - y[a]) ** 2 < r_ ** 2
+            want = set(zip(a[close_].tolist(), b[close_].tolist())); got = set(zip(np.asarray(net.edges.p1).tolist(), np.asarray(net.edges.p2).tolist()))
+            ctx.count(('disk-rule', r_, seed, stepno), nontrivial=True); ctx.dist('creation rule: DiskNet radius')
+            if got != want:
+                ctx.violation(f'DiskNet(r={r_}) at step {stepno}: {len(got - want)} edges join agents farther apart than r and {len(want - got)} pairs closer than r have no edge', dict(probe='disk-rule', r=r_, seed=seed, step=stepno)); break
+            sim.run(until=sim.t.yearvec[min(stepno + 1, sim.t.npts - 1)]) if False else [sim.loop.run_one_step() for _ in range(len(sim.loop.plan) // sim.t.npts)]
     for k in (2, 4, 10):
         n = 400; seed = rng.randrange(1, 10**4)
         sim = ss.Sim(n_agents=n, networks=ss.RandomNet(n_contacts=k), diseases=ss.SIS(), dur=2, rand_seed=seed, verbose=0); sim.init()
